@@ -483,3 +483,143 @@ def c15_readonly(env, thorough):
     return env.evidence(
         'one traced driver run: authenticate (right/wrong/missing user/unsupported record/other parameter set), exists, list, list-full, check, and semantically failing add/update/set-admin/init; every system call inside each step is replayed in the FS model: no mutation and no open for writing/creation under the store, snapshot identical after every step',
         ['library level; the frontends only call authenticate (C04)'])
+
+
+# =============================================================================================
+# C03
+# =============================================================================================
+
+import re as _re
+NAME_RE = _re.compile(rb'^[A-Za-z0-9][-_.@A-Za-z0-9]*$')
+
+
+def c03_names(root):
+    sib = os.path.join(root, 'sib')
+    names = [
+        b'', b'.', b'..', b'../sib/bob', b'../sib/bob\x00', sib.encode() + b'/bob', b'a/../bob', b'./bob', b'bob/', b'bob/.', b'bob/..', b'.tmp/x', b'../decoy',
+        b'-x', b'.x', b'.y', b'_x', b'@x', b'x y', b'x\n', b'x\ny', b'x\x00y', b'bob\x00', b'bob.user', b'bob.admin', b'bob.user/../bob', b'root', b'../base/root',
+        b'x' * 255, b'x' * 256, b'y' * 5000, b'\xff\xfe', b'b\xc3\xb6b', b'bob ', b' bob', b'*', b'bob?', b'sib/bob', b'/etc/passwd', b'//bob', b'bob//', b'....//bob',
+        # valid controls
+        b'bob', b'a.b-c_d@e', b'new1', b'0', b'x' * 200,
+    ]
+    return names
+
+
+def c03(env, thorough):
+    root = os.path.join(env.work, 'c03', 'tree')
+    tmpl = os.path.join(env.work, 'c03', 'tmpl')
+    shutil.rmtree(tmpl, ignore_errors=True)
+    base_t, sib_t = os.path.join(tmpl, 'base'), os.path.join(tmpl, 'sib')
+    build_tree(env, base_t, [{'op': 'add', 'user': 'root', 'pw': 'rootpw', 'admin': True}, {'op': 'add', 'user': 'bob', 'pw': 'bobpw'}], {})
+    rec = open(os.path.join(base_t, 'root.admin'), 'rb').read()
+    for n in ('-x.admin', '.y.user', 'x y.user'):
+        with open(os.path.join(base_t, n), 'wb') as f:
+            f.write(rec)
+    build_tree(env, sib_t, [{'op': 'add', 'user': 'sibroot', 'pw': 'sibrootpw', 'admin': True}, {'op': 'add', 'user': 'bob', 'pw': 'sibpw'}, {'op': 'add', 'user': 'decoy', 'pw': 'sibpw'}], {})
+    os.makedirs(os.path.join(tmpl, 'empty'))
+    os.makedirs(os.path.join(tmpl, 'onlybad'))
+    with open(os.path.join(tmpl, 'onlybad', '-x.admin'), 'wb') as f:
+        f.write(rec)
+    with open(os.path.join(tmpl, 'decoy.txt'), 'wb') as f:
+        f.write(b'decoy\n')
+    with open(os.path.join(tmpl, 'decoy.user'), 'wb') as f:
+        f.write(rec)
+    base, sib, empty = os.path.join(root, 'base'), os.path.join(root, 'sib'), os.path.join(root, 'empty')
+    names = c03_names(root)
+    for ni, name in enumerate(names):
+        valid = bool(NAME_RE.match(name))
+        ub = base64.b64encode(name).decode()
+        steps = []
+        for pw in ('bobpw', 'sibpw', 'rootpw'):
+            steps.append({'op': 'auth', 'user_b64': ub, 'pw': pw})
+        steps += [{'op': 'exists', 'user_b64': ub},
+                  {'op': 'update', 'user_b64': ub, 'pw': 'hacked'},
+                  {'op': 'setadmin', 'user_b64': ub, 'admin': True},
+                  {'op': 'setadmin', 'user_b64': ub, 'admin': False},
+                  {'op': 'add', 'user_b64': ub, 'pw': 'addpw'},
+                  {'op': 'add', 'user_b64': ub, 'pw': 'addpw', 'admin': True},
+                  {'op': 'remove', 'user_b64': ub},
+                  {'op': 'init', 'user_b64': ub, 'pw': 'initpw', 'base': empty},
+                  {'op': 'list'}, {'op': 'listfull'},
+                  {'op': 'check', 'base': os.path.join(root, 'onlybad')}]
+        copy_tree(tmpl, root)
+        fs = FS(root)
+        accesses = []
+
+        def on_access(op, phase, c, mut, desc, paths, accesses=accesses):
+            if phase == 'in':
+                accesses.append((op, c, mut, desc, paths))
+        run = engine.run_driver(env.drv, env.work, {'base': base, 'root': root, 'snap': True, 'steps': steps}, tag='c03')
+        if run.report is None:
+            raise TraceError('C03 driver run failed for name %r: %s' % (name, run.stderr[-500:]))
+        points, stats, acked = engine.replay(root, fs, run, want_power=False, on_access=on_access)
+        env.cov['traces_validated_against_impl'] += stats['validated']
+        env.cov['transitions'] += stats['calls']
+        shown = repr(name if len(name) < 40 else name[:20] + b'...(%d bytes)' % len(name))
+
+        def viol(kind, step, msg, extra=None):
+            env.violation('%s:%s' % (kind, step['op']), '[user name %s, %s] %s' % (shown, step['op'], msg),
+                          {'name_b64': ub, 'step': step, 'detail': extra})
+        # (1) path oracle
+        for op, c, mut, desc, paths in accesses:
+            st = steps[op]
+            b = st.get('base', base)
+            for p in paths:
+                if p is None:
+                    continue
+                if not (p == root or p.startswith(root + '/')):
+                    if mut or c.name in ('renameat', 'unlinkat', 'mkdirat') and c.ret == 0:
+                        viol('mutation-outside-sandbox', st, '%s touched %s' % (c.name, p))
+                    continue
+                rel = os.path.relpath(p, b)
+                ok = (p == b) or rel == '.tmp' or (rel.startswith('.tmp/') and '/' not in rel[5:])
+                if not ok and '/' not in rel and not rel.startswith('..'):
+                    for ext in ('.user', '.admin'):
+                        if rel.endswith(ext) and NAME_RE.match(rel[:-len(ext)].encode('latin1')):
+                            ok = True
+                if not ok and c.err == 'ENAMETOOLONG' and '/' not in rel and NAME_RE.match(rel.encode('latin1')):
+                    ok = True  # strace prints over-long paths truncated (no extension visible); the call failed in the kernel
+                if st['op'] in ('list', 'listfull', 'check') and os.path.dirname(p) == b:
+                    ok = True  # directory scans look at every entry of the base directory
+                if not ok:
+                    viol('path-outside-contract', st, 'system call %s on %s (%s): not <base>, <base>/.tmp/* or <base>/<valid name>.user|.admin' % (c.name, os.path.relpath(p, root), 'mutating' if mut else 'read'),
+                         c.raw[:200])
+        # (2)+(3) effects
+        prev = read_tree(root)
+        copy_prev = None
+        tree0 = engine.snap_to_tree  # noqa
+        before = None
+        for r in run.report:
+            st = steps[r['i']]
+            after = engine.snap_to_tree(r.get('snap') or {})
+            if before is None:
+                before = read_tree(tmpl)
+            b_rel = os.path.relpath(st.get('base', base), root)
+            outside_changed = [k for k in set(before) | set(after) if not (k == b_rel or k.startswith(b_rel + '/')) and before.get(k) != after.get(k)]
+            if outside_changed:
+                viol('effect-outside-base', st, 'objects outside the base directory changed: %s' % sorted(outside_changed)[:5])
+            inside_changed = [k for k in set(before) | set(after) if (k == b_rel or k.startswith(b_rel + '/')) and before.get(k) != after.get(k) and k != b_rel + '/.tmp']
+            if not valid:
+                if st['op'] == 'auth' and r.get('res', '').startswith('true'):
+                    viol('invalid-name-authenticates', st, 'Authenticate succeeded (%s) for a name outside the grammar' % r['res'])
+                if st['op'] == 'exists' and r.get('res', '').startswith('true'):
+                    viol('invalid-name-exists', st, 'Exists reports a user for a name outside the grammar')
+                if inside_changed:
+                    viol('invalid-name-effect', st, 'operation with an invalid name changed the store: %s (reported ok=%s)' % (sorted(inside_changed)[:4], r['ok']))
+            if st['op'] in ('list', 'listfull') and st['op'] == 'list':
+                shown_names = _re.findall(r'[^\[\] ]+', r.get('res', ''))
+                bad = [n for n in shown_names if not NAME_RE.match(n.encode('latin1', 'replace'))]
+                if bad:
+                    viol('list-shows-invalid-name', st, 'List returned %s' % bad)
+            if st['op'] == 'check' and r['ok']:
+                viol('invalid-named-admin-counts', st, 'Check accepts a store whose only admin file has the invalid name -x')
+            env.cov['evaluations'] += 1
+            env.distinct.add((ni, st['op'], st.get('pw'), r['ok'], r.get('res')))
+            before = after
+        if ni % 9 == 0:
+            env.samples.append({'name': shown, 'valid': valid, 'results': ['%s:%s%s' % (steps[r['i']]['op'], 'ok' if r['ok'] else 'err', ('=' + r['res']) if r.get('res') else '') for r in run.report][:8]})
+    env.cov['states'] = len(names)
+    return env.evidence(
+        '%d user names (empty, dot segments, traversal into a sibling store, absolute paths, aliases after path cleaning, leading - . _ @, control bytes, NUL, NAME_MAX, 5000 bytes, non-UTF-8, valid controls) x operations authenticate (3 passwords), exists, update, set-admin(t/f), add(user/admin), remove, init, list, list-full, check; one traced driver run per name on a tree with a sibling store and decoys; '
+        'oracles: every path-taking system call stays inside the contract, nothing outside the base directory changes, invalid names have no effect and never authenticate, List shows no invalid name, an invalid-named admin does not satisfy Check' % len(names),
+        ['paths are normalised lexically (the tree contains no symlinks)', 'library level; the frontends are covered by the in-process part'])
